@@ -141,6 +141,8 @@ def spellings(p, rng):
     out["comments"] = gen.with_comments(p.render(comments=True), rng)
     out["macros"] = gen.with_macros(p.render(), rng)
     out["macro_mentions"] = gen.with_macro_mentions(gen.with_macros(p.render(), rng), rng)
+    # the other quoting style of the grammar: 'text' for "text" (names, time zones, formats)
+    out["quotes"] = re.sub(r'"([^"\'\n]*)"', r"'\1'", p.render())
     out["all"] = gen.with_macros(gen.with_comments(gen.renamed(gen.swap_shift_inline(gen.to_precedes(p, rng)), rng).render(dep_style="abs"), rng), rng)
     return out
 
